@@ -257,7 +257,7 @@ func (env *SpecEnv) fromObject(obj types.Object) (SVal, error) {
 		}
 	case *types.Var:
 		name := "GV!" + sanitize(o.Pkg().Name()+"."+o.Name())
-		c := e.W.comp(name, e.W.sortOf(o.Type()), "global")
+		c := e.W.comp(name, e.W.sortOf(o.Type()), globalKind(o.Pkg()))
 		return SVal{T: env.heapOf(c), Typ: o.Type(), Sort: e.W.sortOf(o.Type())}, nil
 	}
 	return SVal{}, fmt.Errorf("unsupported object %s", obj)
@@ -946,6 +946,40 @@ func (env *SpecEnv) call(x *CExpr) (SVal, error) {
 		n.heap = env.loop.entryHeap
 		n.inOld = false
 		return (&n).tr(x.Args[0])
+	case "streq": // streq(a, b): same length and same bytes (extensional equality of strings)
+		a, err := argv(0)
+		if err != nil {
+			return SVal{}, err
+		}
+		b, err := argv(1)
+		if err != nil {
+			return SVal{}, err
+		}
+		if a.Sort != "Str" || b.Sort != "Str" {
+			return SVal{}, fmt.Errorf("streq: string arguments expected")
+		}
+		e.nfresh++
+		j := fmt.Sprintf("q!se%d", e.nfresh)
+		return SVal{T: fmt.Sprintf("(and (= (slen %s) (slen %s)) (forall ((%s Int)) (=> (and (<= 0 %s) (< %s (slen %s))) (= (sat %s %s) (sat %s %s)))))",
+			a.T, b.T, j, j, j, a.T, a.T, j, b.T, j), Typ: boolT, Sort: "Bool"}, nil
+	case "sameOutside": // sameOutside(p): the backing array of slice p is unchanged (w.r.t. old) outside p's own window
+		a, err := argv(0)
+		if err != nil {
+			return SVal{}, err
+		}
+		if a.Sort != "Slice" || a.Typ == nil {
+			return SVal{}, fmt.Errorf("sameOutside: not a slice")
+		}
+		el := a.Typ.Underlying().(*types.Slice).Elem()
+		c := W.elemComp(el)
+		o := *env
+		o.inOld = true
+		cur := app("select", env.heapOf(c), app("sbase", a.T))
+		old := app("select", (&o).heapOf(c), app("sbase", a.T))
+		e.nfresh++
+		j := fmt.Sprintf("q!so%d", e.nfresh)
+		return SVal{T: fmt.Sprintf("(forall ((%s Int)) (! (=> (or (< %s (soff %s)) (>= %s (+ (soff %s) (slength %s)))) (= (select %s %s) (select %s %s))) :pattern ((select %s %s))))",
+			j, j, a.T, j, a.T, a.T, cur, j, old, j, cur, j), Typ: boolT, Sort: "Bool"}, nil
 	case "view":
 		a, err := argv(0)
 		if err != nil {
